@@ -58,9 +58,15 @@ type apiGen struct {
 	pool  [][]byte
 	used  [][]byte // storage keys (addr ++ sfx) used so far
 	codes [][]byte // codes given to PutContract
+	hot   []byte
 }
 
-func (g *apiGen) addr() []byte { return g.pool[g.c.Intn(len(g.pool))] }
+func (g *apiGen) addr() []byte {
+	if g.hot != nil && g.c.Intn(2) == 0 {
+		return g.hot // one address per history collects most entries, so the loops have work to do
+	}
+	return g.pool[g.c.Intn(len(g.pool))]
+}
 
 func (g *apiGen) sfx() []byte {
 	n := g.c.Intn(4)
@@ -125,8 +131,9 @@ func (g *apiGen) rawEntry(net uint32) (k, v []byte) {
 func (g *apiGen) history() *Hist {
 	h := &Hist{Kind: "api", Net: []uint32{3, 3, 3, 1, 1, 2}[g.c.Intn(6)]}
 	g.used = nil
+	g.hot = g.pool[g.c.Intn(len(g.pool))]
 	seen := map[string]bool{}
-	for n := g.c.Intn(14); n > 0; n-- {
+	for n := g.c.Intn(20); n > 0; n-- {
 		k, v := g.rawEntry(h.Net)
 		if seen[string(k)] || len(v) == 0 {
 			continue
@@ -205,7 +212,7 @@ func (g *apiGen) history() *Hist {
 func coqStore(st [][2]string) string {
 	s := make([]string, 0, len(st))
 	for _, e := range st {
-		s = append(s, fmt.Sprintf("(%s, %s)", hx.CoqBytes(hx.UnHex(e[0])), hx.CoqBytes(hx.UnHex(e[1]))))
+		s = append(s, fmt.Sprintf("(%s, %s)", sh.B(hx.UnHex(e[0])), sh.B(hx.UnHex(e[1]))))
 	}
 	return hx.CoqList(s)
 }
@@ -288,6 +295,7 @@ type replayInput struct {
 
 func Run(c *hx.Ctx) {
 	c.CoqModule("Corr.C44")
+	c.CoqHeader(initShortener())
 	var raw json.RawMessage
 	if c.ReplayInput(&raw) {
 		replay(c, raw)
@@ -301,7 +309,7 @@ func Run(c *hx.Ctx) {
 		doAPI(c, h, true)
 	}
 	g := &apiGen{c: c, pool: addrPool()}
-	n := c.N(700, 9000)
+	n := c.N(420, 9000)
 	for i := 0; i < n; i++ {
 		doAPI(c, g.history(), true)
 	}
